@@ -108,7 +108,16 @@ func TestWriteCorpus(t *testing.T) {
 	write("C06", "end-stop-126", "regression: (1-dz)*(1/(1-dz)) < 1 made the CC end stop 126 (fixed: e747d6e)", ax(AxisDef{Code: 0, Type: "cc", CC: intp(7), Min: 0, Max: 255}, floatp(0.05), 128, 255, 0, 255))
 	write("C06", "end-stop-126-bidi", "regression: same for a bidirectional CC with deadzone 0.002", ax(AxisDef{Code: 0, Type: "cc", CC: intp(7), CCNeg: intp(8), Min: -32768, Max: 32767}, floatp(0.002), 32767, -32768, 0))
 
+	write("C06", "range-from-1-flipped", "regression: an axis reporting 1..255 was normalised as raw/255, the lower end stop of the flipped controller gave 126 (fixed: 8edca27)",
+		ax(AxisDef{Code: 0, Type: "cc", CC: intp(7), Flip: boolp(true), Min: 1, Max: 255}, floatp(0), 128, 1, 255, 1))
+	write("C06", "range-64-192-bend", "regression: same, pitch bend on 64..192: the lower end stop is 0, the middle 8192", ax(AxisDef{Code: 2, Type: "pitch_bend", Min: 64, Max: 192}, floatp(0), 100, 64, 128, 192))
+	write("C06", "deadzone-one", "regression: a deadzone of 1.0 made the end stop 0/0 (fixed: 6e354df)", ax(AxisDef{Code: 0, Type: "cc", CC: intp(7), Min: -128, Max: 127}, floatp(1.0), 0, 126, 127, -128, 5))
+
 	// C08
+	write("C08", "one-sided-range", "regression: on a range -255..0 the rest position was 0/0 and the emulated key never went off (fixed: 8edca27)",
+		ax(AxisDef{Code: 0x10, Type: "key", NoteNeg: intp(40), Note: intp(41), Min: -255, Max: 0}, floatp(0), -255, 0, -200, 0))
+	write("C08", "range-from-1", "regression: on a range 1..255 half travel sits at 64 / 192, not at 63.75 / 191.25 of 255 (fixed: 8edca27)",
+		ax(AxisDef{Code: 0x10, Type: "key", NoteNeg: intp(40), Note: intp(41), Min: 1, Max: 255}, floatp(0), 128, 64, 128, 190, 192, 128))
 	keyAxis := AxisDef{Code: 0x10, Type: "key", Note: intp(60), Min: -1, Max: 1}
 	write("C08", "no-note-negative-silent", "regression: negative direction without note_negative played note 0 (fixed: 6bb5805)", ax(keyAxis, floatp(0), -1, 0, 1, 0, -1))
 	keyAxis.NoteNeg = intp(62)
@@ -152,6 +161,10 @@ func TestWriteCorpus(t *testing.T) {
 	write("C12", "missing-directory", "regression: missing directory -> nil FileInfo panic (fixed: 7ac5c0b)",
 		C12Case{Kbd: [4]bool{true, true, true, true}, ID: [4]uint16{3, 1, 2, 3}, Query: [4]uint16{3, 1, 2, 3}, DevType: 1, MissingDir: 1})
 
+	write("C12", "entry-too-deep", "regression: one nested path past PATH_MAX failed the whole load (fixed: 89db1d4)",
+		C12Case{Kbd: [4]bool{true, true, true, true}, Pad: [4]bool{true, true, true, true}, ID: [4]uint16{3, 1, 2, 3}, Query: [4]uint16{3, 1, 2, 3}, DevType: 1, MissingDir: -1,
+			Noise: []c12Noise{{Dir: 3, Name: "00_noise_0.toml", Kind: "too-deep"}, {Dir: 0, Name: "zz_noise_1.toml", Kind: "too-deep"}}})
+
 	// C15
 	write("C15", "despawn-stalled-consumer", "regression: DespawnOutput deadlocked behind a consumer that stopped reading (fixed: b698f0d)",
 		C15Case{InCap: 2, OutCap: 2, PortInCap: 2, PortOutCap: 2, Emitters: []int{10}, InputN: 200, Procs: 2, Direct: true,
@@ -163,6 +176,9 @@ func TestWriteCorpus(t *testing.T) {
 	// C19
 	write("C19", "non-toml-suffix", "regression: HasSuffix(name, \"toml\") notified for mytoml / atoml (fixed: monitor.go)",
 		C19Case{Ops: []c19Op{{Kind: "write", Dir: 0, File: "mytoml"}, {Kind: "write", Dir: 2, File: "atoml"}, {Kind: "burst", Dir: 1, File: "toml", N: 6}, {Kind: "write", Dir: 3, File: "a.toml"}}, CancelWith: "idle"})
+
+	write("C19", "first-write-and-nested", "regression: the watches were armed in a goroutine (first write lost, fixed: 42a9597) and did not reach sub-directories (fixed: b031bfb)",
+		C19Case{Ops: []c19Op{{Kind: "write", Dir: 0, File: "mine/nested.toml"}, {Kind: "write", Dir: 3, File: "mine/deeper/still.toml"}, {Kind: "write", Dir: 1, File: "mine/notes.txt"}}, CancelWith: "idle"})
 
 	// C17 / C16
 	led := func(code evdev.EvCode) string { return device.KeyToLedName[code] }
